@@ -1567,6 +1567,21 @@ package badger
 //@   props C08
 //@   light
 //@   assert[flush-before-release] before call DecrRef : called(handleMemTableFlush#1) && ret(handleMemTableFlush#1) == nil && held(db.lock)
+//@   assert[flush-this-memtable] before call handleMemTableFlush : arg0 == db && arg1 == mt && mt != nil
+//@   assert[retry-on-error] before call Sleep : ret(handleMemTableFlush#1) != nil
+
+// handleMemTableFlush: the table is built from all of the memtable's entries, created on disk
+// (or in memory) under a freshly reserved id and only then added to level 0 (which records it
+// in the MANIFEST first); a table that could not be created is not added, and the error of
+// adding it is the flush's error (so the caller keeps the memtable and its WAL).
+//@ func (*DB).handleMemTableFlush
+//@   props C08 C12
+//@   light
+//@   assert[all-entries-of-this-memtable] before call buildL0Table : arg0 == ret(NewUniIterator#1) && len(arg1) == 0
+//@   assert[iterator-of-memtable] before call NewUniIterator : arg0 == mt.sl && !arg1
+//@   assert[created-before-added] before call addLevel0Table : arg0 == db.lc && arg1 == tbl && err == nil
+//@   assert[on-disk-under-reserved-id] before call NewFilename : arg0 == ret(reserveFileID#1) && arg1 == db.opt.Dir && !db.opt.InMemory
+//@   assert[add-error-is-flush-error] before return#3 : result == ret(addLevel0Table#1)
 
 // A request batch is acknowledged with nil only after the value log and the memtable (and its
 // WAL) took every request; every failure acknowledges with the error.
